@@ -4,21 +4,31 @@ from props import codegen_common as cg
 from props import c01
 
 LEVEL = 'proof'
-MODULES = ['Pysmi.Props.C03']
-LAKE_TARGETS = ['Pysmi.Props.C03']
+MODULES = ['Pysmi.Props.C03', 'Pysmi.Props.C03Time']
+LAKE_TARGETS = ['Pysmi.Props.C03', 'Pysmi.Props.C03Time']
 THEOREMS = [
     'Pysmi.Symtab.C03_order_is_perm',
     'Pysmi.Symtab.inv_regDecl',
     'Pysmi.Symtab.fixpoint_stable',
     'Pysmi.Symtab.C01_success_characterised',
+    'Pysmi.Time.C03_revision_long',
+    'Pysmi.Time.C03_revision_short',
+    'Pysmi.Time.C03_revision_total',
+    'Pysmi.Time.pin_genTime_source',
+    'Pysmi.Time.pin_dummy',
 ]
 TECHNIQUE = ('Lean 4 invariant proof that the emission order of the symbol pass is a duplicate-free permutation of the declared names; '
-             'correspondence of the registration model against the real SymtableCodeGen; JSON documents of generated modules checked '
+             'theorems about a model of genTime (CPython strptime regular expression with backtracking, calendar check, glibc %Y) for every date; '
+             'correspondence of the registration model against the real SymtableCodeGen and of Model.Time.genTime against the real genTime '
+             'on well-formed, boundary and malformed stamps; JSON documents of generated modules checked '
              'against the generator\'s declarations (keys, class, node type, status, access, units, revisions)')
 LEVEL_TEXT = ('Proved in Lean for any number and mix of declarations: when the symbol pass succeeds the list from which the JSON (and '
               'pysnmp) document is emitted is a duplicate-free permutation of the declared (renamed) symbol names - nothing dropped, nothing '
-              'duplicated; the emission loop stores each record under its own name. Per-kind attribute copying (class, nodetype, status, '
-              'access, units, revisions) and JSON syntax (json.dumps) are not modelled: they are checked by the oracle on every generated '
+              'duplicated; the emission loop stores each record under its own name. Revision data: for every existing date and time of day a '
+              'well-formed YYYYMMDDHHMMZ stamp is rendered as that date, the short form YYMMDDHHMMZ as 19YY (C03_revision_long/short), and every '
+              'other text gives the dummy date or the rendering of an existing date (C03_revision_total); ASCII stamps (CPython\'s \\d also '
+              'accepts other Unicode digits: not modelled). Per-kind attribute copying (class, nodetype, status, '
+              'access, units) and JSON syntax (json.dumps) are not modelled: they are checked by the oracle on every generated '
               'module, including texts with backslashes, apostrophes, non-ASCII and long words. Symbols named meta/imports collide with the '
               'document sections (recorded finding).')
 LEVEL_NOTE = c01.LEVEL_NOTE
@@ -70,9 +80,95 @@ def check_set(ctx, obs):
                 res.oracle_failures.append({'key': 'status', 'what': '%s::%s status %r, declared %s' % (mn, k, rec.get('status'), d['status']), 'input': inp})
             if d['kind'] == 'moduleIdentity':
                 got = [r.get('revision') for r in rec.get('revisions', [])]
-                wantr = ['%s-%s-%s %s:%s' % (x[0][0:4], x[0][4:6], x[0][6:8], x[0][8:10], x[0][10:12]) for x in d['revisions']]
+                full = [(len(x[0]) == 11 and '19' or '') + x[0] for x in d['revisions']]     # short form: year 19YY
+                wantr = ['%s-%s-%s %s:%s' % (x[0:4], x[4:6], x[6:8], x[8:10], x[10:12]) for x in full]
                 if got != wantr:
                     res.oracle_failures.append({'key': 'revisions', 'what': '%s::%s revisions %r, declared %r' % (mn, k, got, wantr), 'input': inp})
+
+
+def gen_stamp(rng):
+    """REVISION / LAST-UPDATED arguments: well-formed long and short stamps, calendar boundaries, and malformed ones
+    (wrong length, out-of-range fields, blanks, stray characters) - ASCII only, see Model/Time.lean"""
+    r = rng.random()
+    y = rng.choice([rng.randint(0, 9999), rng.randint(1900, 2100), rng.choice([0, 1, 999, 1000, 1900, 1999, 2000, 2004, 2100, 9999])])
+    mo = rng.choice([rng.randint(1, 12), rng.randint(0, 13), 2])
+    d = rng.choice([rng.randint(1, 28), rng.randint(28, 32), rng.randint(0, 32)])
+    h = rng.choice([rng.randint(0, 23), rng.randint(0, 25)])
+    mi = rng.choice([rng.randint(0, 59), rng.randint(0, 61)])
+    if r < 0.35:
+        return '%04d%02d%02d%02d%02dZ' % (y, mo, d, h, mi)
+    if r < 0.6:
+        return '%02d%02d%02d%02d%02dZ' % (y % 100, mo, d, h, mi)
+    if r < 0.75:                                                   # single-digit fields: the regular expression backtracks
+        parts = ['%04d' % y] + [rng.choice(['%d', '%02d', '%2d']) % v for v in (mo, d, h, mi)]
+        return ''.join(parts) + rng.choice(['Z', 'z', 'Z', ''])
+    if r < 0.9:
+        base = list('%04d%02d%02d%02d%02dZ' % (y, mo, d, h, mi))
+        for _ in range(rng.randint(1, 3)):
+            k = rng.randrange(len(base) + 1)
+            op = rng.random()
+            if op < 0.4 and base:
+                del base[min(k, len(base) - 1)]
+            elif op < 0.8:
+                base.insert(k, rng.choice('0123456789 Zz-:T+x'))
+            elif base:
+                base[min(k, len(base) - 1)] = rng.choice('0123456789 Zz-:')
+        return ''.join(base)
+    return ''.join(rng.choice('0123456789 Zz') for _ in range(rng.randint(0, 15)))
+
+
+def time_stream(ctx):
+    """genTime of the real code generator against Model.Time.genTime, and the RFC 2578 reading of well-formed stamps"""
+    import random
+    import re
+    res = ctx.res
+    from pysmi.codegen.jsondoc import JsonCodeGen
+    cgen = JsonCodeGen()
+    rng = random.Random(ctx.seed * 7919 + 3)
+    n = 3000 if ctx.tier == 'quick' else 60000
+    reqs, metas = [], []
+    seen = set()
+    for _ in range(n):
+        st = gen_stamp(rng)
+        if st in seen:
+            continue
+        seen.add(st)
+        try:
+            got = cgen.genTime([st])
+        except Exception as e:
+            res.oracle_failures.append({'key': 'revision-raises', 'what': 'genTime(%r) raised %s' % (st, type(e).__name__), 'input': {'stamp': st}})
+            continue
+        res.case(('stamp', st), True)
+        if not (isinstance(got, list) and len(got) == 1):
+            res.oracle_failures.append({'key': 'revision-shape', 'what': 'genTime([%r]) returned %r' % (st, got), 'input': {'stamp': st}})
+            continue
+        got = got[0]
+        reqs.append({'op': 'text', 'fn': 'genTime', 's': [ord(c) for c in st]})
+        metas.append((st, got))
+        m = re.fullmatch(r'(\d\d|\d\d\d\d)(\d\d)(\d\d)(\d\d)(\d\d)Z', st)
+        if m:
+            yy, mo, d, h, mi = (int(x) for x in m.groups())
+            year = yy + 1900 if len(m.group(1)) == 2 else yy
+            leap = year % 4 == 0 and (year % 100 != 0 or year % 400 == 0)
+            dim = [31, 29 if leap else 28, 31, 30, 31, 30, 31, 31, 30, 31, 30, 31]
+            if year >= 1000 and 1 <= mo <= 12 and 1 <= d <= dim[mo - 1] and h < 24 and mi < 60:
+                res.count('stamp:well-formed-' + ('short' if len(m.group(1)) == 2 else 'long'))
+                want = '%04d-%02d-%02d %02d:%02d' % (year, mo, d, h, mi)
+                if got != want:
+                    res.oracle_failures.append({'key': 'revision-date', 'what': 'stamp %r comes out as %r, it denotes %r' % (st, got, want),
+                                                'input': {'stamp': st, 'want': want}})
+            else:
+                res.count('stamp:out-of-range')
+        else:
+            res.count('stamp:malformed')
+    if ctx.model is not None and reqs:
+        for (st, got), out in zip(metas, ctx.model.batch(reqs)):
+            res.count('model:genTime')
+            if isinstance(out, dict):
+                res.corr_failures.append({'what': 'driver error %r' % (out,), 'input': st})
+            elif ''.join(map(chr, out)) != got:
+                res.corr_failures.append({'what': 'Model.Time.genTime differs from IntermediateCodeGen.genTime', 'input': st, 'impl': got,
+                                          'model': ''.join(map(chr, out))})
 
 
 def run(ctx):
@@ -98,6 +194,7 @@ def run(ctx):
                 reqs.append(req)
                 metas.append(('symreg', entry, names))
     c01.compare(ctx, reqs, metas)
+    time_stream(ctx)
     res.sample({'module_text': list(obs['texts'].values())[0][:1200], 'json_keys': sorted(list(obs['json'].values())[0]) if obs['json'] else None})
 
 
@@ -107,6 +204,14 @@ def search(ctx):
 
 
 def replay(payload):
+    if 'stamp' in payload['input']:
+        from pysmi.codegen.jsondoc import JsonCodeGen
+        try:
+            got = JsonCodeGen().genTime([payload['input']['stamp']])
+        except Exception as e:
+            return {'fails': True, 'what': repr(e)}
+        return {'fails': 'want' in payload['input'] and got != [payload['input']['want']], 'impl': got}
+
     class C:
         pass
     import common
